@@ -929,7 +929,7 @@ def _mk_params(spec):
         if kind == 1:
             v = B(v)
         elif kind == 2:
-            v = bool(v)
+            v = None if v is None else bool(v)
         elif kind == 3:
             v = packet.QuicPreferredAddress(
                 ipv4_address=tuple(v["v4"]) if v["v4"] else None, ipv6_address=tuple(v["v6"]) if v["v6"] else None,
@@ -940,10 +940,31 @@ def _mk_params(spec):
     return packet.QuicTransportParameters(**kw)
 
 
+def _rec_tokens(params):
+    """the dataclass attribute by attribute (dataclass order), 0 | 1 payload -- model/TParams.v out_qtp / tk_qtp"""
+    import dataclasses
+    kinds = {name: kind for pid, name, kind in _params_table()}
+    out = []
+    for f in dataclasses.fields(params):
+        v = getattr(params, f.name)
+        kind = kinds[f.name]
+        if v is None:
+            out += [0]
+        elif kind == 2:
+            out += [1, 1 if v else 0]
+        else:
+            out += [1] + _pval_tokens(kind, v)[1:]
+    return out
+
+
 def tp_encode(case):
     op = case["op"]
     if op[0] == "pull":
         return [0] + lp(B(op[1]))
+    if op[0] == "pullrec":
+        return [2] + lp(B(op[1]))
+    if op[0] == "pushrec":
+        return [3, op[1]] + _rec_tokens(_mk_params(op[2]))
     params = _mk_params(op[2])
     ents = []
     n = 0
@@ -964,6 +985,9 @@ def tp_impl(case):
         if op[0] == "pull":
             b = Buffer(data=B(op[1]))
             return [0] + _params_dump(packet.pull_quic_transport_parameters(b))
+        if op[0] == "pullrec":
+            b = Buffer(data=B(op[1]))
+            return [0] + _rec_tokens(packet.pull_quic_transport_parameters(b))
         b = Buffer(capacity=op[1])
         packet.push_quic_transport_parameters(b, _mk_params(op[2]))
         return [0] + lp(b.data)
@@ -996,13 +1020,18 @@ def rfc_tparams(params):
 
 
 def tp_in_domain(params):
+    """the domain of tparams_roundtrip (TParamsRoundtrip.qtp_wf), written independently"""
+    if params.disable_active_migration is None:
+        return False             # Optional[bool]: None is sent like False and read back as False
     for pid, name, kind in _params_table():
         v = getattr(params, name)
         if v is None or v is False:
             continue
         if kind == 0 and not 0 <= v < U62:
             return False
-        if kind == 1 and len(v) > 60000:
+        if kind == 1 and len(v) > 65536:
+            return False
+        if kind == 4 and len(v.available_versions) > 16383:
             return False
         if kind == 3:
             if len(v.connection_id) > 255 or len(v.stateless_reset_token) != 16:
@@ -1049,13 +1078,29 @@ def rfc_tparams_strict(data):
     return True
 
 
+import collections
+TP_BOUNDARY = collections.Counter()
+
+
 def tp_oracle(case):
     from aioquic.buffer import Buffer
     from aioquic.quic import packet
     op = case["op"]
-    if op[0] == "push":
+    if op[0] in ("push", "pushrec"):
         params = _mk_params(op[2])
         if not tp_in_domain(params):
+            # outside qtp_wf: record what the implementation does (encodes, then decodes differently / raises)
+            try:
+                b = Buffer(capacity=op[1])
+                packet.push_quic_transport_parameters(b, params)
+                try:
+                    back = packet.pull_quic_transport_parameters(Buffer(data=b.data))
+                    if back != params:
+                        TP_BOUNDARY["encodes_decodes_differently"] += 1
+                except ValueError:
+                    TP_BOUNDARY["encodes_decode_raises_ValueError"] += 1
+            except Exception:
+                TP_BOUNDARY["encode_raises"] += 1
             return None
         ref = rfc_tparams(params)
         b = Buffer(capacity=op[1])
@@ -1086,7 +1131,13 @@ def tp_oracle(case):
         return ("pull_quic_transport_parameters accepted a parameter whose value does not end at its declared length",
                 {"codec": "tparams", "rule": "nesting"})
     b2 = Buffer(capacity=len(data) + 4096)
-    packet.push_quic_transport_parameters(b2, params)
+    try:
+        packet.push_quic_transport_parameters(b2, params)
+    except Exception as e:
+        if errk(e) == E_WRITE and len(data) > 65536:
+            TP_BOUNDARY["decodes_but_reencode_overflows_inner_buffer"] += 1     # tparams_reencode needs |input| <= 65536
+            return None
+        return ("decoded transport parameters do not re-encode: %s" % type(e).__name__, {"codec": "tparams", "rule": "reencode"})
     again = packet.pull_quic_transport_parameters(Buffer(data=b2.data))
     if again != params:
         return ("decoded transport parameters do not re-encode to the same value", {"codec": "tparams", "rule": "reencode"})
@@ -1142,6 +1193,24 @@ def tp_gen(rng, n, thorough):
         else:
             data = rbytes(rng, rng.randint(0, 30))
         cases.append({"s": "tparams", "op": ["pull", H(data)]})
+    # the dataclass view (model/TParams.v qtp): the same pushes / pulls attribute by attribute
+    for c in list(cases):
+        if rng.random() < 0.4:
+            op = c["op"]
+            cases.append({"s": "tparams", "op": ["pushrec"] + op[1:]} if op[0] == "push" else {"s": "tparams", "op": ["pullrec", op[1]]})
+    # tparams_reencode / tparams_reencode_limit: a 65536-byte value re-encodes, a 65537-byte value decodes but does not
+    for n in (65536 - 5, 65536, 65537):
+        cases.append({"s": "tparams", "op": ["pull", H(rfc_varint(0) + rfc_varint(n) + bytes([7]) * n)]})
+        cases.append({"s": "tparams", "op": ["pullrec", H(rfc_varint(0x0C37) + rfc_varint(n) + bytes([9]) * n)]})
+    # boundary of the round-trip domain (tparams_roundtrip_*_refuted, tparams_encode_ok_decode_error)
+    pa = {"v4": ["0.0.0.0", 443], "v6": None, "cid": "01020304", "tok": "05" * 16}
+    for spec in ({"preferred_address": pa}, {"max_idle_timeout": 30000, "disable_active_migration": None},
+                 {"preferred_address": {"v4": None, "v6": ["::", 1], "cid": "", "tok": "00" * 16}},
+                 {"preferred_address": {"v4": None, "v6": None, "cid": "01" * 256, "tok": "02" * 16}},
+                 {"original_destination_connection_id": "00" * 65536}, {"quantum_readiness": "ab" * 65536},
+                 {"version_information": {"chosen": 1, "avail": [2] * 16383}}, {"version_information": {"chosen": 1, "avail": [2] * 16384}}):
+        cases.append({"s": "tparams", "op": ["pushrec", 200000, spec]})
+        cases.append({"s": "tparams", "op": ["push", 200000, spec]})
     return cases
 
 
@@ -1226,6 +1295,77 @@ def tls_dump(kind, m):
     if kind == 15:
         return [int(m.algorithm)] + lp(m.signature)
     return lp(m.verify_data)
+
+
+class _Tok:
+    def __init__(self, toks):
+        self.t, self.i = list(toks), 0
+
+    def z(self):
+        v = self.t[self.i] if self.i < len(self.t) else 0
+        self.i += 1
+        return v
+
+    def lst(self):
+        n = max(self.z(), 0)
+        v = self.t[self.i:self.i + n]
+        self.i += n
+        return v
+
+    def by(self):
+        return bytes(x & 0xFF for x in self.lst())
+
+    def opt(self, f):
+        return f() if self.z() else None
+
+    def cnt(self, f):
+        return [f() for _ in range(max(self.z(), 0))]
+
+
+def tls_undump(kind, toks):
+    """inverse of tls_dump: the dataclass from its token dump (model/TlsCodec.v tk_<message>)"""
+    from aioquic import tls
+    t = _Tok(toks)
+    ext = lambda: (t.z(), t.by())
+    if kind == 1:
+        m = tls.ClientHello(random=t.by(), legacy_session_id=t.by(), cipher_suites=t.lst(), legacy_compression_methods=t.lst())
+        m.key_share = t.opt(lambda: t.cnt(ext)) or []
+        m.supported_versions = t.opt(t.lst) or []
+        m.signature_algorithms = t.opt(t.lst) or []
+        m.supported_groups = t.opt(t.lst) or []
+        m.psk_key_exchange_modes = t.opt(t.lst)
+        sn = t.opt(t.by)
+        m.server_name = None if sn is None else sn.decode("latin-1")
+        al = t.opt(lambda: t.cnt(t.by))
+        m.alpn_protocols = None if al is None else [a.decode("latin-1") for a in al]
+        m.early_data = bool(t.z())
+        m.pre_shared_key = t.opt(lambda: tls.OfferedPsks(identities=t.cnt(lambda: (t.by(), t.z())), binders=t.cnt(t.by)))
+        m.other_extensions = t.cnt(ext)
+        return m
+    if kind == 2:
+        m = tls.ServerHello(random=t.by(), legacy_session_id=t.by(), cipher_suite=t.z(), compression_method=t.z())
+        m.supported_version = t.opt(t.z)
+        m.key_share = t.opt(ext)
+        m.pre_shared_key = t.opt(t.z)
+        m.other_extensions = t.cnt(ext)
+        return m
+    if kind == 4:
+        m = tls.NewSessionTicket(ticket_lifetime=t.z(), ticket_age_add=t.z(), ticket_nonce=t.by(), ticket=t.by())
+        m.max_early_data_size = t.opt(t.z)
+        m.other_extensions = t.cnt(ext)
+        return m
+    if kind == 8:
+        a = t.opt(t.by)
+        m = tls.EncryptedExtensions(alpn_protocol=None if a is None else a.decode("latin-1"), early_data=bool(t.z()))
+        m.other_extensions = t.cnt(ext)
+        return m
+    if kind == 11:
+        return tls.Certificate(request_context=t.by(), certificates=t.cnt(lambda: (t.by(), t.by())))
+    if kind == 13:
+        return tls.CertificateRequest(request_context=t.by(), signature_algorithms=t.opt(t.lst) or [], other_extensions=t.cnt(ext))
+    if kind == 15:
+        return tls.CertificateVerify(algorithm=t.z(), signature=t.by())
+    return tls.Finished(verify_data=t.by())
 
 
 # independent description of each message as a length-prefixed tree (RFC 8446 section 4)
@@ -1387,6 +1527,8 @@ def tls_encode(case):
     op = case["op"]
     if op[0] == "pull":
         return [0, op[1]] + lp(B(op[2]))
+    if op[0] == "pushrec":
+        return [2, op[1]] + list(op[2])
     return [1] + tree_tokens(["B", 0, op[1]])      # the message = a 0-byte-prefixed block of its top-level items
 
 
@@ -1398,15 +1540,82 @@ def tls_impl(case):
             b = Buffer(data=B(op[2]))
             m = _tls_funcs()[op[1]][0](b)
             return [0] + tls_dump(op[1], m) + [b.tell()]
+        if op[0] == "pushrec":
+            # op = ["pushrec", kind, dump]: rebuild the dataclass, run the real push_<message>, dump it again
+            m = tls_undump(op[1], op[2])
+            b = Buffer(capacity=400000)
+            _tls_funcs()[op[1]][1](b, m)
+            return [0] + lp(b.data) + tls_dump(op[1], m)
         # "push": op = ["push", tree, hex of the implementation's bytes]; a 0-capacity block prefix is empty
         return [0] + lp(B(op[3]))
     except Exception as e:
         return [errk(e)]
 
 
+TLS_KNOWN = {1: {51, 43, 13, 10, 45, 0, 16, 42, 41}, 2: {43, 51, 41}, 4: {42}, 8: {16, 42}, 13: {13}}
+TLS_DOMAIN = collections.Counter()
+
+
+def tls_in_domain(kind, m):
+    """the X_wf predicates of proofs/TlsRoundtrip.v, written independently over the dataclass"""
+    u8 = lambda v: 0 <= v < 1 << 8
+    u16 = lambda v: 0 <= v < 1 << 16
+    u32 = lambda v: 0 <= v < 1 << 32
+    asc = lambda x: all(ord(c) < 128 for c in x)
+    others = lambda: all(u16(t) and t not in TLS_KNOWN[kind] for t, _ in m.other_extensions)
+    if kind == 1:
+        return (len(m.random) == 32 and all(map(u16, m.cipher_suites)) and all(map(u8, m.legacy_compression_methods))
+                and all(u16(g) for g, _ in m.key_share) and all(map(u16, m.supported_versions)) and all(map(u16, m.signature_algorithms))
+                and all(map(u16, m.supported_groups)) and (m.psk_key_exchange_modes is None or all(map(u8, m.psk_key_exchange_modes)))
+                and (m.server_name is None or asc(m.server_name)) and (m.alpn_protocols is None or all(map(asc, m.alpn_protocols)))
+                and (m.pre_shared_key is None or all(u32(a) for _, a in m.pre_shared_key.identities)) and others())
+    if kind == 2:
+        return (len(m.random) == 32 and u16(m.cipher_suite) and u8(m.compression_method)
+                and (m.supported_version is None or u16(m.supported_version)) and (m.key_share is None or u16(m.key_share[0]))
+                and (m.pre_shared_key is None or u16(m.pre_shared_key)) and others())
+    if kind == 4:
+        return u32(m.ticket_lifetime) and u32(m.ticket_age_add) and (m.max_early_data_size is None or u32(m.max_early_data_size)) and others()
+    if kind == 8:
+        return (m.alpn_protocol is None or asc(m.alpn_protocol)) and others()
+    if kind == 13:
+        return all(map(u16, m.signature_algorithms)) and others()
+    if kind == 15:
+        return u16(m.algorithm)
+    return True
+
+
+def tls_pushrec_oracle(kind, dump):
+    """<message>_roundtrip on the implementation: in the domain, push succeeds or raises OverflowError, and pull(push(m)) == m"""
+    from aioquic.buffer import Buffer
+    pull, push = _tls_funcs()[kind]
+    m = tls_undump(kind, dump)
+    if not tls_in_domain(kind, m):
+        TLS_DOMAIN["outside"] += 1
+        return None
+    b = Buffer(capacity=400000)
+    try:
+        push(b, m)
+    except OverflowError:
+        TLS_DOMAIN["overflow"] += 1
+        return None
+    except Exception as e:
+        return ("push of an in-domain TLS message (type %d) raised %s" % (kind, type(e).__name__), {"codec": "tls", "rule": "push_raise", "message": kind})
+    TLS_DOMAIN["inside"] += 1
+    r = Buffer(data=b.data + b"\xaa\xbb")
+    try:
+        back = pull(r)
+    except Exception as e:
+        return ("pull(push(message type %d)) raised %s" % (kind, type(e).__name__), {"codec": "tls", "rule": "roundtrip", "message": kind})
+    if back != m or r.tell() != len(b.data):
+        return ("pull(push(message type %d)) != message" % kind, {"codec": "tls", "rule": "roundtrip", "message": kind})
+    return None
+
+
 def tls_oracle(case):
     from aioquic.buffer import Buffer
     op = case["op"]
+    if op[0] == "pushrec":
+        return tls_pushrec_oracle(op[1], op[2])
     if op[0] != "pull":
         return None
     kind, data = op[1], B(op[2])
@@ -1430,7 +1639,10 @@ def tls_oracle(case):
         push(b2, m)
     except Exception:
         return None               # decoded values the encoder's API does not accept (None lists): out of the encoder's domain
-    m2 = pull(Buffer(data=b2.data))
+    try:
+        m2 = pull(Buffer(data=b2.data))
+    except Exception as e:
+        return ("re-encoded TLS message (type %d) does not decode: %s" % (kind, type(e).__name__), {"codec": "tls", "rule": "reencode", "message": kind})
     if m2 != m:
         return ("decoded TLS message (type %d) does not re-encode to the same value" % kind, {"codec": "tls", "rule": "reencode", "message": kind})
     return None
@@ -1443,9 +1655,13 @@ def tls_push_case(kind, m):
     b = Buffer(capacity=200000)
     push(b, m)
     r = Buffer(data=b.data)
-    back = pull(r)
     bad = None
-    if back != m or not r.eof():
+    try:
+        back = pull(r)
+    except Exception as e:
+        back = None
+        bad = ("pull(push(message type %d)) raised %s" % (kind, type(e).__name__), {"codec": "tls", "rule": "roundtrip", "message": kind})
+    if bad is None and (back != m or not r.eof()):
         bad = ("pull(push(message type %d)) != message" % kind, {"codec": "tls", "rule": "roundtrip", "message": kind})
     return {"s": "tls", "op": ["push", tls_tree(kind, m), kind, H(b.data)]}, bad
 
@@ -1456,6 +1672,7 @@ def tls_gen(ctx, rng, n):
     for i in range(n):
         kind = kinds[i % len(kinds)]
         m = rand_msg(rng, kind)
+        cases.append({"s": "tls", "op": ["pushrec", kind, tls_dump(kind, m)]})
         try:
             c, bad = tls_push_case(kind, m)
         except (OverflowError, ValueError):
@@ -1478,10 +1695,37 @@ def tls_gen(ctx, rng, n):
             cases.append({"s": "tls", "op": ["pull", kind, H(data[:rng.randint(0, len(data))])]})
         else:
             cases.append({"s": "tls", "op": ["pull", kind, H(bytes([kind]) + rbytes(rng, rng.randint(0, 40)))]})
+    # boundaries of the round-trip domain: blocks that do not fit their length prefix (OverflowError on both sides),
+    # other_extensions reusing a known type (encodes, decodes differently), out-of-range integers (wrap, F12)
+    from aioquic import tls
+    for kind, m in (
+            (4, tls.NewSessionTicket(ticket_nonce=bytes(256))), (4, tls.NewSessionTicket(ticket_nonce=bytes(255), ticket=bytes(65535))),
+            (4, tls.NewSessionTicket(ticket=bytes(65536))), (15, tls.CertificateVerify(algorithm=0x0804, signature=bytes(65536))),
+            (2, tls.ServerHello(random=bytes(32), legacy_session_id=bytes(256), cipher_suite=0x1301, compression_method=0)),
+            (2, tls.ServerHello(random=bytes(32), legacy_session_id=b"", cipher_suite=0x1301, compression_method=0, other_extensions=[(57, bytes(65536))])),
+            (2, tls.ServerHello(random=bytes(32), legacy_session_id=b"", cipher_suite=0x1301, compression_method=0, other_extensions=[(57, bytes(65000)), (58, bytes(600))])),
+            (2, tls.ServerHello(random=bytes(32), legacy_session_id=b"", cipher_suite=0x1301, compression_method=0, other_extensions=[(43, b"\x03\x04")])),
+            (2, tls.ServerHello(random=bytes(31), legacy_session_id=b"", cipher_suite=0x1301, compression_method=0)),
+            (2, tls.ServerHello(random=bytes(32), legacy_session_id=b"", cipher_suite=0x11301, compression_method=256)),
+            (8, tls.EncryptedExtensions(alpn_protocol="h3", other_extensions=[(16, b"\x00\x03\x02h2")])),
+            (11, tls.Certificate(request_context=bytes(256), certificates=[])),
+            (11, tls.Certificate(request_context=b"", certificates=[(bytes(70000), bytes(65535))])),
+            (13, tls.CertificateRequest(request_context=b"", signature_algorithms=[0x0804] * 32767)),
+            (13, tls.CertificateRequest(request_context=b"", signature_algorithms=[0x0804] * 32768)),
+            (20, tls.Finished(verify_data=bytes(48)))):
+        cases.append({"s": "tls", "op": ["pushrec", kind, tls_dump(kind, m)]})
     # calibration witnesses (docs/C17.md): extension_length ignored; empty ALPN list; non-ASCII server name
     sh = bytes([2]) + (2 + 32 + 1 + 2 + 1 + 2 + 6).to_bytes(3, "big") + b"\x03\x03" + bytes(32) + b"\x00" + b"\x13\x01\x00" + b"\x00\x06" + b"\x00\x2b\x00\x00\x03\x04"
     cases.append({"s": "tls", "op": ["pull", 2, H(sh)]})
     cases.append({"s": "tls", "op": ["pull", 8, H(bytes([8]) + (2 + 6).to_bytes(3, "big") + b"\x00\x06" + b"\x00\x10\x00\x02\x00\x00")]})
+    from aioquic import tls as _tls
+    m = rand_msg(rng, 1)
+    m.pre_shared_key = _tls.OfferedPsks(identities=[(b"id", 7)], binders=[bytes(32)])
+    m.early_data = False
+    t = tls_tree(1, m)
+    exts = t[1][2][5][2]
+    exts += EXT(57, [Y(b"late")])        # an extension after pre_shared_key
+    cases.append({"s": "tls", "op": ["pull", 1, H(b"".join(tree_bytes(x) for x in t))]})
     m = rand_msg(rng, 1)
     m.server_name = "zzzz"
     ch = b"".join(tree_bytes(t) for t in tls_tree(1, m)).replace(b"zzzz", b"zz\xffz")
@@ -1501,6 +1745,8 @@ def _rebuild(c, ops):
 
 def _simplify(op):
     """smaller variants of one op: shorter byte strings, smaller numbers"""
+    if op[0] == "pushrec" and isinstance(op[2], list):
+        return []      # a TLS message given as its token dump: cutting the dump gives garbage counts, not a smaller message
     out = []
     for i, x in enumerate(op):
         if i == 0:
@@ -1561,6 +1807,8 @@ def run(ctx):
         "exhaustive_small_scope": "all non-empty range sets over a universe of %d packet numbers x 10 offsets; every varint first byte; "
                                   "all CID lengths 0..21,255 x long types x both versions" % (8 if ctx.thorough else 6),
         "f12_out_of_domain_pushes_observed": dict(F12_SEEN),
+        "tparams_outside_roundtrip_domain_observed": dict(TP_BOUNDARY),
+        "tls_push_from_record": dict(TLS_DOMAIN),
     })
     return corr.merge_coverage(
         list(suites.values()),
